@@ -8,6 +8,7 @@ import os
 from ..geo import Frame, Geo, Obj, S, kind, show
 from ..model import Repo, norm_src, own_nodes
 from ..rules import orderdep
+from ..model import AnalysisError
 from . import geosinks
 
 A = "swcgeom.analysis"
@@ -21,6 +22,21 @@ def run(ctx, col, tier):
     # a sample exactly on a sampling sphere must not be counted for both of its segments: rotating the neuron moves it off the sphere by a rounding error and the profile changes
     from .c10 import sholl_chain_rule as _sholl_chain
     col.guard(_sholl_chain, ctx, col)
+    # a translated neuron must survive a write / read cycle with the same shape: the writer keeps a fixed number of DECIMALS (absolute precision), not of significant digits
+    col.rule("R-ABSPREC", "coordinates are written with an absolute precision (fixed-point format, `f`): a general / exponent format keeps significant digits, so the same neuron translated "
+             "far from the origin loses decimals on writing and its measures change with its position", floor=1)
+    try:
+        from .c01 import parse_spec as _parse_spec, writer_facts as _writer_facts
+        _w, _gv, _fmt, _other = _writer_facts(ctx, col)
+        _sp = _parse_spec(_fmt) if _fmt is not None else None
+        if _sp is None:
+            col.unresolved("R-ABSPREC", _gv.qualname, _gv.loc(), "the written precision does not depend on the position", "float format of the writer not recognised", stmt="absprec")
+        else:
+            col.check(_sp[2] == "f", "R-ABSPREC", _gv.qualname, _gv.loc(_fmt), "the written precision does not depend on the position", f"spec {_sp[0]!r}",
+                      f"floats are written with spec {_sp[0]!r}: that keeps significant digits, not decimals -- a neuron translated by (20000.5, -15000.25, 30000.75) is written with one decimal or none, "
+                      f"and its length after reading back differs from the length before", stmt="absprec", definite=True)
+    except AnalysisError as _ex:
+        col.unresolved("R-ABSPREC", "swcgeom.core.swc_utils.io.to_swc", "swcgeom/core/swc_utils/io.py:1", "the written precision does not depend on the position", str(_ex), stmt="absprec")
     from ..rules import orderkind as _orderkind
     _orderkind.run(ctx, col, ('swcgeom.analysis.features', 'swcgeom.analysis.lmeasure', 'swcgeom.analysis.sholl', 'swcgeom.analysis.feature_extractor'))
     from ..rules import negidx as _negidx
